@@ -139,6 +139,8 @@ def e2e_monitor(case, il, sl):
     for l in il:
         if l and not l.startswith("#"):
             d[l.split()[0]] = l
+    if any(l.strip() == "open-channel hung" for l in il):
+        return ("with mem_channel_bound = %d the first call on a freshly opened channel never returns (the publisher is blocked for good although the transport accepts data)" % bound, "c18-bound0-hang")
     if "stall" not in d:
         return ("scenario did not run: %s" % il[:2], "c18-e2e-open")
     kv = dict(x.split("=") for x in d["stall"].split()[1:])
@@ -163,7 +165,7 @@ def e2e_monitor(case, il, sl):
 
 def gen_e2e(tier, seed):
     rng = Rng(seed + 1818)
-    cfgs = [(1, 1000, 0, 2, 120, 300, 1200, "t"), (2, 20000, 10000, 3, 150, 1000, 1200, "t"), (16, 65536, 0, 4, 200, 800, 1500, "f")]
+    cfgs = [(0, 1000, 0, 2, 60, 100, 1200, "f"), (1, 1000, 0, 2, 120, 300, 1200, "t"), (2, 20000, 10000, 3, 150, 1000, 1200, "t"), (16, 65536, 0, 4, 200, 800, 1500, "f")]
     if tier != "quick":
         for _ in range(12):
             high = rng.choice([1000, 20000, 65536])
